@@ -51,10 +51,25 @@ ObsMatch(s, o, cmploc) ==
           /\ Len(o.trace) - 1 \in {Len(s.chain), Len(s.chain) + 1}
           /\ \A j \in 1..Len(s.chain) : SameLoc(s.chain[j], o.trace[j + 1])
 
+\* programs with a planted compile-time error: the compiler must refuse them, with the error
+\* located at the planted card (r.expect_cerr = [kind, at]); the machine is not run
+CerrCase(r) == "expect_cerr" \in DOMAIN r
+CerrMatch(r) == /\ r.obs.st = "cerr" /\ r.obs.kind = r.expect_cerr.kind
+                /\ r.obs.trace # <<>> /\ SameLoc(r.expect_cerr.at, r.obs.trace[1])
+
 Init == pi = 1 /\ m = IF N >= 1 THEN InitM(1) ELSE [k |-> <<>>]
 Next ==
   /\ pi <= N
-  /\ IF ~Terminal(m) THEN m' = StepM(m) /\ pi' = pi
+  /\ IF CerrCase(Rec[pi])
+     THEN /\ IF CerrMatch(Rec[pi])
+             THEN PrintT(<<"VERDICT", ToJson([id |-> Rec[pi].id, ok |-> TRUE, st |-> "cerr", steps |-> 0])>>)
+             ELSE PrintT(<<"MISMATCH", ToJson([id |-> Rec[pi].id,
+                                               expected |-> [st |-> "cerr", kind |-> Rec[pi].expect_cerr.kind, at |-> Rec[pi].expect_cerr.at,
+                                                             globals |-> <<>>, log |-> <<>>, chain |-> <<>>],
+                                               got |-> Rec[pi].obs])>>)
+          /\ pi' = pi + 1
+          /\ m' = IF pi + 1 <= N THEN InitM(pi + 1) ELSE m
+     ELSE IF ~Terminal(m) THEN m' = StepM(m) /\ pi' = pi
      ELSE /\ LET r == Rec[pi]  s == Obs(m) IN
                IF ObsMatch(s, r.obs, r.cmp_loc)
                THEN PrintT(<<"VERDICT", ToJson([id |-> r.id, ok |-> TRUE, st |-> s.st, steps |-> m.steps])>>)
